@@ -130,22 +130,20 @@ theorem cut_in_sequence (topic : Bytes) (pre : List C11.Exch) (e : C11.Exch) (po
   · rw [runOps_append]
     simp only [C11.runOps, C11.runOps_closed topic post _ hcut.2, hcut.2]
 
-/-- fetch on a cut stream: never a complete batch; a kafka error can only come with a used-up stream -/
+/-- fetch on a cut stream, for every conserving message-set reader and however far the caller read the batch before
+Close: a non-kafka error, and the Conn is closed — the same statement as `cut_is_error` (since the fix C02-D33; before
+it a kafka error out of ReadMessage, or an early Close, could end "successfully" on a Conn left in mid-response) -/
 theorem fetch_cut_is_error (v : Nat) (offset : Int) (b : Body) (c : Conn) (hdr tail : Bytes) (n : Nat)
     (hb : b.Conserves) (hopen : c.closed = false)
     (hstream : c.stream = hdr ++ tail) (hlen : hdr.length = 8)
     (hsize : beInt (hdr.take 4) = n + 4) (hid : beInt (hdr.drop 4) = c.nextId)
     (hcut : tail.length < n) :
-    (connFetch true v offset b c).1 ≠ .ok ∧
-    ((connFetch true v offset b c).1.isFail = true → (connFetch true v offset b c).2.closed = true) ∧
-    ((connFetch true v offset b c).1.isFail = false → (connFetch true v offset b c).2.stream = []) := by
+    (connFetch true v offset b c).1.isFail = true ∧ (connFetch true v offset b c).2.closed = true := by
   have hw := C11.wait_hdr c hdr tail n hstream hlen hsize hid
   have hf := fetchRead_cut v offset b ⟨tail, n⟩ hb hcut
   unfold connFetch
   simp only [hopen, Bool.false_eq_true, ↓reduceIte, hw]
-  refine ⟨hf.1, ?_, hf.2⟩
-  intro h
-  simp [h]
+  exact ⟨hf, hf⟩
 
 /-! ### the reflective decoder (Transport path) under its contract -/
 
